@@ -103,7 +103,9 @@ RefResolve ==
   LET mo == ModuleOutcome
       o == GivenOpts
   IN CASE mo = "nomodule" -> {Enle("notfound")}
-       [] mo = "notpython" -> {Enle("badpath")}
+       \* a directory is no extension file: "not a Python file" or "no such module" are both fair descriptions
+       [] mo = "notpython" -> IF c.sit = "isdir" THEN {Enle("badpath"), Enle("notfound"), Enle("importerror")}
+                              ELSE {Enle("badpath")}
        [] mo = "deperror" -> IF c.target = "file" THEN {Enle("importerror"), Raise("ModuleNotFoundError")}
                              ELSE {Enle("importerror")}
        [] mo = "bodyerror" -> IF c.target = "file" THEN {Raise("ValueError")} ELSE {Enle("importerror")}
